@@ -16,6 +16,7 @@ CONSTANTS
     MaxSpans = 2
     IncomingKinds <- MC_IncBoth
     WithLazy = FALSE
+    CtxForms <- MC_Forms
     Emit = TRUE
 VIEW sview
 INVARIANTS InnermostWins NoTrace StackOK FrameIds AmbientIds OneTrace ParentIsEnclosing EventCarriesInnermost IdsDistinct
